@@ -154,7 +154,7 @@ fn same_with_locs(a: &SExp, b: &SExp) -> bool {
     }
 }
 
-pub fn judge_layout(text: &str, placed: &Placed, st: &mut Stats) -> Result<usize, Viol> {
+pub fn judge_layout(text: &str, placed: &[Placed], st: &mut Stats) -> Result<usize, Viol> {
     let parsed = match parse_sexp(Srcloc::start(FILE), text.bytes()) {
         Ok(p) => p,
         Err(e) => {
@@ -166,12 +166,16 @@ pub fn judge_layout(text: &str, placed: &Placed, st: &mut Stats) -> Result<usize
             return Ok(0);
         }
     };
-    if parsed.len() != 1 {
-        st.label("not-one-form(skip)");
-        return Ok(0);
+    if parsed.len() != placed.len() {
+        return Err(Viol::new("number-of-top-level-forms-differs", format!("{} forms", placed.len()), format!("{} forms", parsed.len()), json!({"text": text})));
+    }
+    if placed.len() > 1 {
+        st.label("several-top-level-forms");
     }
     let mut n = 0;
-    walk(placed, &parsed[0], text, st, &mut n)?;
+    for (p, s) in placed.iter().zip(parsed.iter()) {
+        walk(p, s, text, st, &mut n)?;
+    }
     // byte-at-a-time == whole
     let mut pp = ParsePartialResult::new(Srcloc::start(FILE));
     let mut err = None;
@@ -231,6 +235,22 @@ pub fn judge_error_locations(text: &str, st: &mut Stats) -> Result<bool, Viol> {
     Ok(any)
 }
 
+/// 1..3 top-level forms; a leaf may stand at top level too
+fn gen_top_forms(c: &mut Choices) -> Vec<TT> {
+    let n = match c.weighted(&[6, 3, 2]) {
+        0 => 1,
+        1 => 2,
+        _ => 3,
+    };
+    (0..n)
+        .map(|i| match gen_tt(c, 4) {
+            // a text consisting of one bare token only is less interesting than a list
+            TT::Leaf(t) if n == 1 && i == 0 => TT::List(vec![TT::Leaf(t)], None),
+            other => other,
+        })
+        .collect()
+}
+
 fn errors_text(bytes: &[u8]) -> Option<(String, &'static str)> {
     let mut c = Choices::new(bytes);
     let corpus = shipped_corpus();
@@ -283,13 +303,10 @@ impl Prop for C15Prop {
         let mut c = Choices::new(bytes);
         match sec {
             "layout" => {
-                let tt = match gen_tt(&mut c, 4) {
-                    TT::Leaf(t) => TT::List(vec![TT::Leaf(t)], None),
-                    l => l,
-                };
+                let forms = gen_top_forms(&mut c);
                 let (text, placed, comments, newlines) = {
                     let mut r = Renderer::new(&mut c);
-                    let p = r.place(&tt);
+                    let p = r.place_top(&forms);
                     (r.out.clone(), p, r.comments, r.newlines)
                 };
                 if comments > 0 {
@@ -336,12 +353,9 @@ impl Prop for C15Prop {
         let Input::Bytes(bytes) = input else { return None };
         if sec == "layout" {
             let mut c = Choices::new(bytes);
-            let tt = match gen_tt(&mut c, 4) {
-                TT::Leaf(t) => TT::List(vec![TT::Leaf(t)], None),
-                l => l,
-            };
+            let forms = gen_top_forms(&mut c);
             let mut r = Renderer::new(&mut c);
-            r.place(&tt);
+            r.place_top(&forms);
             return Some(json!({"section": "layout", "text": r.out}));
         }
         errors_text(bytes).map(|(t, k)| json!({"section": "errors", "text": t, "mutation": k}))
